@@ -215,7 +215,8 @@ def session_family(pid, tier, chk):
     quick = tier == "quick"
     K, F, solo = DSS.measure()
     chk.extra["measured_job_steps"] = {"K": K, "F": F}
-    extra = {"threads": ["t1", "t2", "t3"], "K": K, "F": F}
+    extra = {"threads": ["t1", "t2", "t3"], "K": K, "F": F, "B": dict(DSS.B)}
+    chk.extra["measured_job_steps"]["B"] = dict(DSS.B)
     if not DSS.shared_counterexample(chk, K, F):
         raise tlc.MachineryError("the shared-context variant of Session.tla no longer violates SoloEq: the schedules would not discriminate")
     chk.extra["shared_context_variant_refuted_by_TLC"] = True
@@ -228,6 +229,12 @@ def session_family(pid, tier, chk):
             chk.exhaustive_parts.append("MC_Session: every interleaving of 3 threads")
         chk.rng.shuffle(beh)
         beh = beh[: (150 if quick else 3000)]
+        # two whole pipelines, build steps included (merge_models, every comparison, every group merge)
+        behb = DSS.mc_session(chk, "t2b", K, F, emit=True)
+        chk.exhaustive_parts.append("MC_Session t2b: every interleaving of two whole pipelines incl. %d + %d build steps (%d schedules)"
+                                    % (DSS.B["m1"], DSS.B["m2"], len(behb)))
+        chk.rng.shuffle(behb)
+        beh += behb[: (150 if quick else 3000)]
         traces, inputs, stuck = DSS.session_traces(beh, K, F, solo, False, "sch")
         # single calls from a fresh worker thread, and free-running threads under a minimal switch interval
         import sys as _sys
@@ -236,7 +243,7 @@ def session_family(pid, tier, chk):
         try:
             free = []
             for n in ([2, 3, 4, 8] if quick else [2, 3, 4, 5, 6, 7, 8] * 20):
-                names = ["j1", "j2", "j3", "j1", "j2", "j3", "j1", "j2"][:n]
+                names = (["j1", "j2", "j3", "j1", "j2", "j3", "j1", "j2"] if len(free) % 2 == 0 else ["m1", "m2", "j3", "m1", "m2", "j1", "m2", "m1"])[:n]
                 free.append({"prog": {"t%d" % (k + 1): [names[k]] * 3 for k in range(n)}})
             free.append({"prog": {"t1": ["j1"]}})
             extra["threads"] = ["t%d" % k for k in range(1, 9)]
